@@ -1,4 +1,5 @@
 """C09 - one command line per protocol step; caller text cannot inject commands (pure part: make_command)."""
+from props.client_props import gen_c09_client
 from rng import hx
 import itertools
 
@@ -30,7 +31,8 @@ def gen_pure(ctx):
 
 PROP = {
     "id": "C09",
-    "stages": [{"name": "pure", "target": "h_pure", "gen": gen_pure}],
+    "stages": [{"name": "pure", "target": "h_pure", "gen": gen_pure},
+               {"name": "client", "target": "h_client", "gen": gen_c09_client, "shard": 12}],
     "trivial_tags": ["noarg"],
     "rule": "client::make_command on every verb x argument of the stated exhaustive alphabet, injection strings and random full-range byte "
             "strings; non-trivial = an argument is present; distinct = distinct (verb, argument).",
